@@ -214,6 +214,9 @@ struct SessionState {
     deferred_read: DeferredRead,
     last_recorded_time: Option<tokio::time::Instant>,
     last_broadcast_type: Option<BroadcastConfirmMode>,
+    // the last solicited / unsolicited response sent carried IIN1.0 for the pending confirm-mandatory broadcast
+    sol_reported_broadcast: bool,
+    unsol_reported_broadcast: bool,
 }
 
 impl SessionState {
@@ -228,6 +231,30 @@ impl SessionState {
             deferred_read: DeferredRead::new(max_read_headers),
             last_recorded_time: None,
             last_broadcast_type: None,
+            sol_reported_broadcast: false,
+            unsol_reported_broadcast: false,
+        }
+    }
+
+    fn is_broadcast_confirm_pending(&self) -> bool {
+        matches!(
+            self.last_broadcast_type,
+            Some(BroadcastConfirmMode::Mandatory)
+        )
+    }
+
+    // a confirm only acknowledges a broadcast that the confirmed response reported
+    fn on_solicited_confirm(&mut self) {
+        if self.sol_reported_broadcast {
+            self.last_broadcast_type = None;
+            self.sol_reported_broadcast = false;
+        }
+    }
+
+    fn on_unsolicited_confirm(&mut self) {
+        if self.unsol_reported_broadcast {
+            self.last_broadcast_type = None;
+            self.unsol_reported_broadcast = false;
         }
     }
 
@@ -390,6 +417,7 @@ impl OutstationSession {
         database: &DatabaseHandle,
     ) -> Result<Response, LinkError> {
         response.header.iin |= self.get_response_iin(database);
+        self.state.unsol_reported_broadcast = self.state.is_broadcast_confirm_pending();
 
         self.repeat_unsolicited(io, writer, response).await?;
 
@@ -426,6 +454,7 @@ impl OutstationSession {
         database: &DatabaseHandle,
     ) -> Result<Response, LinkError> {
         response.header.iin |= self.get_response_iin(database);
+        self.state.sol_reported_broadcast = self.state.is_broadcast_confirm_pending();
 
         // Determine if we need to ask for confirmation due to broadcast
         if let Some(BroadcastConfirmMode::Mandatory) = self.state.last_broadcast_type {
@@ -755,7 +784,7 @@ impl OutstationSession {
         match self.classify(info, request) {
             FragmentType::UnsolicitedConfirm(seq) => {
                 if seq == uns_ecsn {
-                    self.state.last_broadcast_type = None;
+                    self.state.on_unsolicited_confirm();
                     self.info.unsolicited_confirmed(seq);
                     Ok(UnsolicitedWaitResult::Complete(
                         UnsolicitedResult::Confirmed,
@@ -769,8 +798,8 @@ impl OutstationSession {
                 }
             }
             FragmentType::SolicitedConfirm(_) => {
-                if let Some(BroadcastConfirmMode::Mandatory) = self.state.last_broadcast_type {
-                    self.state.last_broadcast_type = None
+                if self.state.is_broadcast_confirm_pending() {
+                    self.state.on_solicited_confirm();
                 } else {
                     tracing::warn!("ignoring solicited confirm");
                 }
@@ -1934,6 +1963,8 @@ impl OutstationSession {
         request: Request<'_>,
     ) {
         self.state.last_broadcast_type = Some(mode);
+        self.state.sol_reported_broadcast = false;
+        self.state.unsol_reported_broadcast = false;
         let action = self
             .process_broadcast_get_action(frame_id, database, request)
             .await;
@@ -2042,7 +2073,7 @@ impl OutstationSession {
                 .await?
             {
                 Confirm::Yes(respond_to) => {
-                    self.state.last_broadcast_type = None;
+                    self.state.on_solicited_confirm();
 
                     database
                         .clear_written_events(self.application.as_mut())
